@@ -1,7 +1,7 @@
 (* Correspondence and monitor for C01, evaluated on cases written by harness/props/c01.py. *)
 From Coq Require Import NArith List Bool Arith.
 Import ListNotations.
-From HV Require Export lib.Harness model.Validity model.Builder spec.BuilderWFS model.Builder2.
+From HV Require Export lib.Harness model.Validity model.Builder spec.BuilderWFS model.Builder2 spec.Builder2WFS.
 Local Open Scope N_scope.
 
 (* ------------------------------------------------------------------ equality of literals *)
@@ -60,7 +60,8 @@ Inductive case :=
 | CNeg (h : vhugr) (k : N)
 | CSkip
 | CPrem (tys : list tyinfo) (p : prog)
-| CProg2 (p : prog2) (h : vhugr) (same : bool) (fake : bool).
+| CProg2 (p : prog2) (h : vhugr) (same : bool) (fake : bool)
+| CPrem2 (tys : list tyinfo) (p : prog2).
 
 (* the model run on the program gives the implementation's document *)
 Definition corr (c : case) : bool :=
@@ -78,12 +79,15 @@ Definition mon (c : case) : bool :=
   | CSkip => true
   | CPrem _ _ => true
   | CProg2 _ h same _ => same && valid h
+  | CPrem2 _ _ => true
   end.
 
 (* the premises of C01_builder_valid (spec/BuilderWFS.v: wf_prog; and the type table) on an in-model program *)
 Definition prem (c : case) : bool :=
   match c with
   | CPrem tys p => wf_prog tys p && r_table tys
+  (* the premises of the theorems about the extended language (spec/Builder2WFS.v) *)
+  | CPrem2 tys p => croot_ok p && r_table tys
   | _ => true
   end.
 
